@@ -2099,12 +2099,12 @@ fn eval_c17_nesting(job: &Job, which: usize) -> JobResult {
         res.violations.push(viol("statics", format!("custom model {}", which), "the model returns normally".into(), msg.lines().next().unwrap_or("").to_string(), json!({})));
         return res;
     }
-    let ok = if which == 3 { d[0] == n && d[1] == n } else { d[2] == 2 * n && d[3] == 2 * n };
+    let ok = if which != 4 { d[0] == n && d[1] == n } else { d[2] == 2 * n && d[3] == 2 * n };
     if !ok {
         res.violations.push(viol(
             "statics",
             format!("custom model {}", which),
-            if which == 3 { format!("{} iterations: OUTER and INNER initialised once per execution", n) } else { format!("{} iterations x 2 threads: A and B initialised once per thread", n) },
+            if which != 4 { format!("{} iterations: OUTER and INNER initialised once per execution", n) } else { format!("{} iterations x 2 threads: A and B initialised once per thread", n) },
             format!("OUTER {} INNER {} A {} B {}", d[0], d[1], d[2], d[3]),
             json!({}),
         ));
